@@ -196,8 +196,15 @@ func init() {
 		failEvery := atoi(p["failevery"])
 		body := time.Duration(atoi(p["bodyms"])) * time.Millisecond
 		var setups, started, inflight, maxflight, truthS, truthF atomic.Int64
+		var cmdStart atomic.Int64 // UnixNano at which the command was handed to f1 (set just before ExecuteWithArgs)
+		var setupAt atomic.Int64  // ms from there to the (first) call of the scenario's setup function: the command's own start-up
+		setupAt.Store(-1)
 		scenarioFn := func(t *f1testing.T) f1testing.RunFn {
-			setups.Add(1)
+			if setups.Add(1) == 1 {
+				if cs := cmdStart.Load(); cs != 0 {
+					setupAt.Store((time.Now().UnixNano() - cs) / 1e6)
+				}
+			}
 			switch p["tdfail"] { // a cleanup registered during setup that fails at teardown
 			case "1":
 				t.Cleanup(func() { t.Fail() })
@@ -389,6 +396,7 @@ func init() {
 		}()
 		defer close(hbStop)
 		t0 := time.Now()
+		cmdStart.Store(t0.UnixNano())
 		if v, ok := p["sigint"]; ok { // interrupt the run like Ctrl-C, <v> ms after its setup has run
 			go func() {
 				for i := 0; i < 4000 && setups.Load() == 0; i++ {
@@ -459,10 +467,10 @@ func init() {
 				}
 			}
 		}
-		return fmt.Sprintf("%s err=%d banner=%s stats=%d/%d/%d truth=%d/%d setups=%d started=%d maxflight=%d ret=%d envAfter=%s ticks=%d later=%d leak=%d pushed=%s labels=%s stall=%d inflightret=%d",
+		return fmt.Sprintf("%s err=%d banner=%s stats=%d/%d/%d truth=%d/%d setups=%d started=%d maxflight=%d ret=%d envAfter=%s ticks=%d later=%d leak=%d pushed=%s labels=%s stall=%d inflightret=%d setupat=%d",
 			verdict, e, banner, st["successful"], st["failed"], st["dropped"], truthS.Load(), truthF.Load(), setups.Load(),
 			started.Load(), maxflight.Load(), ret.Milliseconds(), envAfter, ticks.Load(), laterRan.Load(), leak, pushed, labels,
-			time.Duration(maxGap.Load()).Milliseconds(), inflightRet)
+			time.Duration(maxGap.Load()).Milliseconds(), inflightRet, setupAt.Load())
 	})
 }
 
